@@ -17,6 +17,7 @@ pub const PROBES: &[&str] = &[
     "window_grew_back",
     "window_grew_by_more_than_1",
     "insert_duplicate",
+    "insert_via_year_for_mut",
     "insert_negative_year",
     "first_after_same_month",
     "first_after_later_month",
@@ -272,6 +273,27 @@ fn step(cx: &mut Ctx, op: &Op) -> R {
             }
             Ok(())
         }
+        Op::InsertViaYear(d) => {
+            let Some(date) = d.date() else { return Ok(()) };
+            cx.fp.tag(14);
+            log_date(&mut cx.fp, Some(date));
+            let was_new = cx.w.model.insert(date);
+            let got = match cx.w.cal.year_for_mut(date) {
+                Some(y) => {
+                    cx.probes.hit("insert_via_year_for_mut");
+                    y.insert(date.month(), date.day())
+                }
+                None => cx.w.cal.insert(date),
+            };
+            cx.fp.tag(got as u8);
+            if got != was_new {
+                return fail("insert_return", format!("insert of {date} through year_for_mut returned {got}, model says was_new={was_new}"));
+            }
+            if !cx.w.cal.contains(date) || cx.w.cal.count() as usize != cx.w.model.len() {
+                return fail("contains_mismatch", format!("after inserting {date} through year_for_mut: contains = {}, count = {}, model has {}", cx.w.cal.contains(date), cx.w.cal.count(), cx.w.model.len()));
+            }
+            Ok(())
+        }
         Op::Contains(d) => {
             let Some(date) = d.date() else { return Ok(()) };
             cx.fp.tag(2);
@@ -324,7 +346,14 @@ fn step(cx: &mut Ctx, op: &Op) -> R {
             cx.fp.tag(5);
             cx.fp.u64(cx.w.model.len() as u64);
             check_agree(&cx.w.cal, &cx.w.model, "Iter")?;
-            // Debug output is the set of dates
+            // Debug output is the set of dates (only rendered for small sets)
+            if cx.w.model.len() <= 12 {
+                let want = format!("CompactCalendar({{{}}})", cx.w.model.iter().map(|d| format!("{d:?}")).collect::<Vec<_>>().join(", "));
+                let got = format!("{:?}", cx.w.cal);
+                if got != want {
+                    return fail("debug_mismatch", format!("Debug renders {got}, the set is {want}"));
+                }
+            }
             Ok(())
         }
         Op::Year(d, w, r) => {
